@@ -910,6 +910,45 @@ theorem inv_active {s s' : State} {c i pass} (hi : Inv s) (hs : stepActive s c i
   intro x hx
   simpa only [canceled, h6] using hx
 
+theorem inv_dialInfoFails {s s' : State} {r} (hi : Inv s) (hs : stepDialInfoFails s r = some s') : Inv s' := by
+  unfold stepDialInfoFails at hs
+  split at hs
+  next q hq =>
+    split at hs
+    next hpc =>
+      simp at hs; subst hs
+      refine ⟨?_, hi.fails_eq, ?_, hi.forgotten_due, hi.entry_ok, ?_, ?_, ?_, hi.src_countable⟩
+      · intro o
+        have h1 := hi.inflight_eq o
+        have h2 := total_set (inFlightW o) s.reqs r { q with pc := .done } q hq
+        simp only [sendingCount] at h1 ⊢
+        simp [hpc, inFlightW, Pc.inFlightOn, b2n] at h2 ⊢; omega
+      · intro o c
+        have h1 := hi.counted_eq o c
+        have h2 := total_set (spawnerW o c) s.reqs r { q with pc := .done } q hq
+        simp only [countedNotSpawned, spawners] at h1 ⊢
+        simp [hpc, spawnerW, Pc.spawningOn, b2n] at h2 ⊢; omega
+      · intro q' hq'
+        rcases mem_set_cases hq' with hm | hm
+        · exact hi.req_ok q' hm
+        · subst hm
+          have := hi.req_ok q (mem_of_get hq)
+          simp [hpc, Pc.inFlight, b2n] at this ⊢; omega
+      · intro q' hq'
+        rcases mem_set_cases hq' with hm | hm
+        · exact hi.retry_ok q' hm
+        · subst hm
+          have := hi.retry_ok q (mem_of_get hq)
+          simp [hpc, Pc.notStart, b2n] at this ⊢; omega
+      · intro o
+        have h1 := hi.attempts_eq o
+        have h2 := total_set (aboutToCountW o) s.reqs r { q with pc := .done } q hq
+        have h3 := total_set (failedAttemptsW o) s.reqs r { q with pc := .done } q hq
+        simp only [countedAttempts, aboutToCount, failedAttempts] at h1 ⊢
+        simp [hpc, aboutToCountW, failedAttemptsW, Pc.owesCountOn, b2n] at h2 h3 ⊢; omega
+    all_goals simp at hs
+  next => simp at hs
+
 theorem inv_step {s s' : State} (a : Action) (hi : Inv s) (hs : step s a = some s') : Inv s' := by
   cases a with
   | newCfg p => simp [step] at hs; subst hs; exact inv_newCfg p hi
@@ -926,6 +965,7 @@ theorem inv_step {s s' : State} (a : Action) (hi : Inv s) (hs : step s a = some 
   | forget i => exact inv_forget hi hs
   | newIter r => exact inv_newIter hi hs
   | fallback r => exact inv_fallback hi hs
+  | dialInfoFails r => exact inv_dialInfoFails hi hs
   | activeCheck c i pass => exact inv_active hi hs
   | tick => simp [step] at hs; subst hs; exact inv_tick hi
 
